@@ -1225,7 +1225,8 @@ func (t *ZeroAllocTokenizer) TokenizeOptimized() ([]Token, error) {
 		case TAG_VAR, TAG_VAR_TRIM:
 			if closerDash {
 				endTokenType = TOKEN_VAR_END_TRIM
-				endLength = 3 // -}}
+				// -}}: the dash lies before tagEndPos, which is where "}}" starts
+				endLength = 2
 				// Adjust tag content to remove the trailing dash
 				tagContent = tagContent[:len(tagContent)-1]
 			} else {
@@ -1235,7 +1236,8 @@ func (t *ZeroAllocTokenizer) TokenizeOptimized() ([]Token, error) {
 		case TAG_BLOCK, TAG_BLOCK_TRIM:
 			if closerDash {
 				endTokenType = TOKEN_BLOCK_END_TRIM
-				endLength = 3 // -%}
+				// -%}: the dash lies before tagEndPos, which is where "%}" starts
+				endLength = 2
 				// Adjust tag content to remove the trailing dash
 				tagContent = tagContent[:len(tagContent)-1]
 			} else {
